@@ -331,10 +331,15 @@ func cmdCheck(repo, root string, args []string) int {
 				}
 			}
 		}
-		for sub, val := range standInPartial {
-			if strings.Contains(shortKey(key), sub) && (prop == "C08" || prop == "C05") {
-				standNames[val] = true
-				standFor = append(standFor, shortKey(key)+" (functional part)")
+		for sub, ps := range standInPartial {
+			if !strings.Contains(shortKey(key), sub) {
+				continue
+			}
+			for _, p := range ps.Props {
+				if p == prop {
+					standNames[ps.Validator] = true
+					standFor = append(standFor, shortKey(key)+" ("+ps.What+")")
+				}
 			}
 		}
 	}
@@ -653,7 +658,7 @@ func cmdCheck(repo, root string, args []string) int {
 		"functions_under_contract":               funcs,
 		"bounded_stand_ins":                      standRows,
 		"bounded_stand_ins_for":                  standFor,
-		"bounded_stand_ins_note":                 "trusted (assumed) contracts of thin wrappers over external transformers are not proved; a bounded validator exercises the real functions instead (labelled bounded, never counted in obligations/discharged)",
+		"bounded_stand_ins_note":                 "trusted (assumed) contracts of thin wrappers over external transformers, the functional part of the stream transformers, and laws of external functions that enter as lemma hypotheses are not proved; a bounded validator exercises the real functions instead (labelled bounded, never counted in obligations/discharged)",
 		"dependency_closure":                     depFuncs,
 		"dependency_closure_note":                "callee contracts the property's proofs assumed at call sites; each is verified in full (all clauses) in this run, transitively",
 		"assumed_clauses_with_findings_of_other_properties": otherSkipped,
